@@ -9,6 +9,8 @@ package verifh
 import (
 	"encoding/json"
 	"fmt"
+	"net/http"
+	"net/http/httptest"
 	"os"
 	"os/exec"
 	"runtime"
@@ -39,12 +41,14 @@ type H struct {
 	wg           sync.WaitGroup
 	hints        map[string]int
 	// crash replay
-	windowOpen   bool
-	hits         int
-	crashAt      int
-	acked        bool
-	crashCommits bool
-	failedFile   string
+	windowOpen     bool
+	hits           int
+	crashAt        int
+	acked          bool
+	crashCommits   bool
+	failedFile     string
+	remoteServers  []*httptest.Server
+	remoteRequests []string
 }
 
 type Record struct {
@@ -253,6 +257,10 @@ func (h *H) Cleanup() {
 	if os.Getenv("VERIF_PHASE") == "child" {
 		return
 	}
+	for _, srv := range h.remoteServers {
+		srv.Close()
+	}
+	h.remoteServers = nil
 	if h.tmp != "" {
 		os.RemoveAll(h.tmp)
 	}
@@ -486,6 +494,31 @@ func (h *H) FailWrites(suffix string) {
 		h.failedFile = suffix
 	}
 }
+
+// Remote scripts a remote data layer: the k-th HTTP request the code under test makes gets the
+// k-th page (status 200, the page as body). It returns the URL to use as endpoint. Under gosx
+// http.Client.Do is modelled; natively a real server on the loopback interface serves the pages.
+func (h *H) Remote(pages ...string) string {
+	served := 0
+	var mu sync.Mutex
+	srv := httptest.NewServer(http.HandlerFunc(func(w http.ResponseWriter, r *http.Request) {
+		mu.Lock()
+		defer mu.Unlock()
+		h.remoteRequests = append(h.remoteRequests, r.URL.String())
+		page := "[]"
+		if served < len(pages) {
+			page = pages[served]
+		}
+		served++
+		w.Header().Set("Content-Type", "application/json")
+		_, _ = w.Write([]byte(page))
+	}))
+	h.remoteServers = append(h.remoteServers, srv)
+	return srv.URL + "/datasets/r/changes"
+}
+
+// RemoteRequests returns the URLs (path and query) requested from the scripted remote so far.
+func (h *H) RemoteRequests() []string { return append([]string{}, h.remoteRequests...) }
 
 // CrashAndRecover kills the process at the chosen boundary (child) or runs
 // the child and continues with the recovery part (parent).
